@@ -10,8 +10,10 @@ import (
 	"fmt"
 	"os"
 	"runtime"
+	"strconv"
 	"strings"
 	"sync/atomic"
+	"time"
 
 	sentinel "github.com/alibaba/sentinel-golang/api"
 	"github.com/alibaba/sentinel-golang/core/base"
@@ -19,6 +21,7 @@ import (
 	"github.com/alibaba/sentinel-golang/core/flow"
 	"github.com/alibaba/sentinel-golang/core/stat"
 	"github.com/alibaba/sentinel-golang/logging"
+	"github.com/alibaba/sentinel-golang/util"
 )
 
 type nullLogger struct{}
@@ -32,6 +35,24 @@ func (nullLogger) WarnEnabled() bool                   { return false }
 func (nullLogger) Error(error, string, ...interface{}) {}
 func (nullLogger) ErrorEnabled() bool                  { return false }
 
+// stepClock is the wall clock plus an offset the probe can move: the `backstep` cases set it back while the wrapped
+// handler runs (NTP step / VM resume), so that entry.Exit() sees a time *before* the entry's start.  The contract does
+// not mention time: the entry must still be exited — completion recorded, concurrency gauge back — on every path.
+type stepClock struct{ offsetNs int64 }
+
+func (c *stepClock) now() time.Time {
+	return time.Now().Add(time.Duration(atomic.LoadInt64(&c.offsetNs)))
+}
+func (c *stepClock) Now() time.Time            { return c.now() }
+func (c *stepClock) Sleep(d time.Duration)     { time.Sleep(d) }
+func (c *stepClock) CurrentTimeMillis() uint64 { return uint64(c.now().UnixNano()) / 1e6 }
+func (c *stepClock) CurrentTimeNano() uint64   { return uint64(c.now().UnixNano()) }
+
+var clock = &stepClock{}
+
+// small enough for the completion to stay inside the node's one-second read window, large enough to exceed any handler run time
+const backstepNs = int64(200 * time.Millisecond)
+
 // Init starts sentinel with default configuration and no log output (stdout carries only result lines).
 func Init() {
 	_ = logging.ResetGlobalLogger(nullLogger{})
@@ -42,6 +63,7 @@ func Init() {
 	conf.Sentinel.Stat.System.CollectLoadIntervalMs = 0
 	conf.Sentinel.Stat.System.CollectCpuIntervalMs = 0
 	conf.Sentinel.Stat.System.CollectMemoryIntervalMs = 0
+	util.SetClock(clock)
 	if err := sentinel.InitWithConfig(conf); err != nil {
 		fmt.Fprintln(os.Stderr, "sentinel init:", err)
 		os.Exit(2)
@@ -74,15 +96,23 @@ func Scenarios() []Scenario {
 type Case struct {
 	Custom bool
 	Sc     Scenario
+	// Backstep: the clock is set back by 200 ms while the handler runs (admitted scenarios, default variant only)
+	Backstep bool
 }
 
-// Plan returns the twelve cases (2 fallback variants x 6 scenarios) in an order shuffled from the seed given
+// Plan returns the cases (2 fallback variants x 6 scenarios, plus the three admitted scenarios with a clock that steps
+// backwards during the handler) in an order shuffled from the seed given
 // as first program argument (no argument or 0: canonical order).
 func Plan() []Case {
 	var cs []Case
 	for _, c := range []bool{false, true} {
 		for _, sc := range Scenarios() {
-			cs = append(cs, Case{c, sc})
+			cs = append(cs, Case{Custom: c, Sc: sc})
+		}
+	}
+	for _, sc := range Scenarios() {
+		if !sc.Blocked {
+			cs = append(cs, Case{Sc: sc, Backstep: true})
 		}
 	}
 	var seed uint64
@@ -100,10 +130,87 @@ func Plan() []Case {
 	return cs
 }
 
+// ---- iteration with load-proof backstep cases ------------------------------------------------------------------
+// A backstep observation depends on wall-clock alignment (see New / valid below).  It is *valid* only if the whole run
+// stayed where it was meant to: the handler was reached in the 500 ms bucket in which the run was aligned, and the
+// statistics were read back less than 1000 ms after that bucket's start.  Invalid observations are discarded and the
+// case is run again; a backstep case is reported only when two valid observations of it agree (so a one-off
+// disturbance is never reported), after at most maxAttempts runs; otherwise every line of the case is printed as
+// `=> skipped`: no claim, never an alarm.
+
+const maxAttempts = 6
+
+type pendingLine struct {
+	head, trace string // "trace <key> <b> <h> <variant>", observed trace
+	valid       bool
+}
+
+var (
+	plan     []Case
+	planIdx  = -1
+	attempts int
+	pending  []pendingLine
+	prevSig  string
+	havePrev bool
+)
+
+func flush(lines []pendingLine, skipped bool) {
+	for _, l := range lines {
+		if skipped {
+			fmt.Printf("%s => skipped\n", l.head)
+		} else {
+			fmt.Printf("%s => %s\n", l.head, l.trace)
+		}
+	}
+}
+
+// Next yields the planned cases one by one (use: `for cs, more := probe.Next(); more; cs, more = probe.Next() {`),
+// re-yielding a backstep case until it has two agreeing valid observations or maxAttempts is reached.
+func Next() (Case, bool) {
+	if plan == nil {
+		plan = Plan()
+	}
+	if planIdx >= 0 && plan[planIdx].Backstep {
+		obs := pending
+		pending = nil
+		attempts++
+		allValid := true
+		sig := ""
+		for _, l := range obs {
+			allValid = allValid && l.valid
+			sig += l.head + " => " + l.trace + "\n"
+		}
+		done := false
+		if allValid {
+			if havePrev && prevSig == sig {
+				flush(obs, false)
+				done = true
+			} else {
+				prevSig, havePrev = sig, true
+			}
+		}
+		if !done && attempts >= maxAttempts {
+			fmt.Fprintf(os.Stderr, "note backstep case %v: no two agreeing valid observations in %d attempts (load); skipped\n", plan[planIdx].Sc, attempts)
+			flush(obs, true)
+			done = true
+		}
+		if !done {
+			return plan[planIdx], true // once more
+		}
+	}
+	planIdx++
+	attempts, havePrev, prevSig = 0, false, ""
+	if planIdx >= len(plan) {
+		return Case{}, false
+	}
+	return plan[planIdx], true
+}
+
 var seq int64
 
 // current fallback variant, set by the harness loop (SetCase); New copies it into the run
 var currentVariant = "default"
+var currentBackstep bool
 
 // SetCase tells the probe which planned case is being driven (printed as the fifth token of the trace line, so that a
 // replay can name the exact variant).
@@ -111,6 +218,10 @@ func SetCase(c Case) {
 	currentVariant = "default"
 	if c.Custom {
 		currentVariant = "custom"
+	}
+	currentBackstep = c.Backstep
+	if c.Backstep {
+		currentVariant += "+backstep"
 	}
 }
 
@@ -127,6 +238,8 @@ type Run struct {
 	liveInHandler           int32
 	fallbacks, rejections   int
 	nilDeref                bool
+	backstep, stepped       bool
+	bucketStart, handlerAt  int64 // wall ms: start of the bucket the run was aligned in; when the handler stepped the clock
 	marked                  bool
 	markAsked, markExits    int64
 	markErrs                int64
@@ -140,9 +253,22 @@ type Run struct {
 func New(key string, sc Scenario, errBack bool, format ...func(id string) string) *Run {
 	n := atomic.AddInt64(&seq, 1)
 	id := fmt.Sprintf("c19-%d-%d", os.Getpid(), n)
-	r := &Run{Key: key, Sc: sc, ErrBack: errBack, ID: id, Res: id, Variant: currentVariant}
+	r := &Run{Key: key, Sc: sc, ErrBack: errBack, ID: id, Res: id, Variant: currentVariant, backstep: currentBackstep}
 	if len(format) > 0 {
 		r.Res = format[0](id)
+	}
+	if r.backstep {
+		// A fresh statistic node pre-initialises its bucket slots with the starts of the *coming* cycle, so a recording made
+		// in the bucket before the node's first one is dropped as "behind" (leap-array behaviour, not this property's
+		// business).  Start the request well inside a 500 ms bucket so that 200 ms earlier is still the same bucket.
+		for {
+			now := time.Now().UnixNano() / 1e6
+			if m := now % 500; m >= 250 && m < 400 {
+				r.bucketStart = now - m
+				break
+			}
+			time.Sleep(5 * time.Millisecond)
+		}
 	}
 	var rules []*flow.Rule
 	if sc.Blocked {
@@ -178,6 +304,16 @@ func (r *Run) InHandler() error {
 		}
 	}
 	r.handlerRuns++
+	if r.backstep && !r.stepped {
+		// test hook (see notes/C19.md): C19_PROBE_STALL=<ms> stalls here on the first attempt of every backstep case
+		// (on every attempt with C19_PROBE_STALL_ALL=1), as a loaded machine would
+		if ms, _ := strconv.Atoi(os.Getenv("C19_PROBE_STALL")); ms > 0 && (attempts == 0 || os.Getenv("C19_PROBE_STALL_ALL") != "") {
+			time.Sleep(time.Duration(ms) * time.Millisecond)
+		}
+		r.stepped = true
+		r.handlerAt = time.Now().UnixNano() / 1e6
+		atomic.AddInt64(&clock.offsetNs, -backstepNs) // from here on, until Finish, time is 200 ms earlier
+	}
 	switch r.Sc.Handler {
 	case "err":
 		return ErrHandler
@@ -244,6 +380,10 @@ func rep(evs []string, e string, n int64) []string {
 
 // Finish prints the observed trace line.
 func (r *Run) Finish() {
+	if r.stepped {
+		r.stepped = false
+		atomic.AddInt64(&clock.offsetNs, backstepNs) // back to wall time before the statistics are read
+	}
 	n := r.node()
 	asked := sum(n, base.MetricEventPass) + sum(n, base.MetricEventBlock)
 	exits := sum(n, base.MetricEventComplete)
@@ -299,5 +439,15 @@ func (r *Run) Finish() {
 	if r.Sc.Blocked {
 		b = "blocked"
 	}
-	fmt.Printf("trace %s %s %s %s => %s\n", r.Key, b, r.Sc.Handler, r.Variant, t)
+	head := fmt.Sprintf("trace %s %s %s %s", r.Key, b, r.Sc.Handler, r.Variant)
+	if !r.backstep {
+		fmt.Printf("%s => %s\n", head, t)
+		return
+	}
+	// valid: the handler was reached inside the aligned bucket (so the entry — and with it the fresh node — was created in
+	// it, and the completion recorded 200 ms earlier is not before the node's first bucket), and everything was read back
+	// while that bucket was still inside the node's two-bucket read window
+	readAt := time.Now().UnixNano() / 1e6
+	valid := readAt < r.bucketStart+1000 && (r.handlerAt == 0 || r.handlerAt < r.bucketStart+500)
+	pending = append(pending, pendingLine{head, t, valid})
 }
